@@ -346,6 +346,31 @@ def generate(repo):
                                  ("setkeyFails", "Bool"), ("headSetupFails", "Bool"), ("outNonNull", "Nat")],
          "jwt-common.c `jwt_builder_generate` (FUNC(generate)): result 0 = NULL, `outNonNull` = what `jwt_encode_str` returned (0 = NULL); `…SetOk` = the "
          "`jwt_claim_set` of iat / nbf / exp left `jval.error` at NONE; `setkeyFails` = `__setkey_check` on what the callback left refused")
+    # ================= JWK import =================
+    jwks = strip_c(open(os.path.join(repo, "libjwt/jwks.c")).read())
+    sk = Skeleton("process_octet", find_body(jwks, r"static\s+int\s+process_octet\s*\(", "process_octet"),
+                  atoms={"k": ("kNull", "ptr"), "json_is_string(k)": ("kIsString", "bool"), "str_k": ("strNull", "ptr"), "strlen(str_k)": ("strEmpty", "ptr"),
+                         "bin_k": ("decodeNull", "ptr")},
+                  effects={"decl bin_k = NULL", "decl str_k", "decl k", "decl len_k = 0", 'k = json_object_get(jwk, "k")', "str_k = json_string_value(k)",
+                           "bin_k = jwt_base64uri_decode(str_k, &len_k)", "item->is_private_key = 1", "item->provider = JWT_CRYPTO_OPS_ANY", "item->oct->key = bin_k",
+                           "item->oct->len = len_k", "item->bits = (len_k * 8)"},
+                  rets={"0": "0", "-1": "1"})
+    emit(sk, "processOctet", [("kNull", "Bool"), ("kIsString", "Bool"), ("strNull", "Bool"), ("strEmpty", "Bool"), ("decodeNull", "Bool")],
+         "jwks.c `process_octet` (result 1 stands for -1): `kNull` = no member `k`; `strEmpty` = its text is empty; `decodeNull` = `jwt_base64uri_decode` refused it")
+    sk = Skeleton("jwk_process_one", find_body(jwks, r"static\s+jwk_item_t\s*\*\s*jwk_process_one\s*\(", "jwk_process_one"),
+                  atoms={"item": ("itemNull", "ptr"), "item->json": ("copyNull", "ptr"), "val": ("ktyNull", "ptr"), "json_is_string(val)": ("ktyIsString", "bool"),
+                         'jwt_strcmp(kty, "EC")': ("ktyIsEC", "ptr"), 'jwt_strcmp(kty, "RSA")': ("ktyIsRSA", "ptr"), 'jwt_strcmp(kty, "OKP")': ("ktyIsOKP", "ptr"),
+                         'jwt_strcmp(kty, "oct")': ("ktyIsOct", "ptr")},
+                  effects={"decl kty", "decl val", "decl item", "item = jwt_malloc(sizeof(* item))", "memset(item, 0, sizeof(* item))", "item->json = json_deep_copy(jwk)",
+                           "jwt_freemem(item)", 'val = json_object_get(item->json, "kty")', "kty = json_string_value(val)", "item->kty = JWK_KEY_TYPE_EC",
+                           "item->kty = JWK_KEY_TYPE_RSA", "item->kty = JWK_KEY_TYPE_OKP", "item->kty = JWK_KEY_TYPE_OCT", "jwk_process_values(item->json, item)"},
+                  consts={"jwt_ops->process_ec(item->json, item)": ("item", "1"), "jwt_ops->process_rsa(item->json, item)": ("item", "2"),
+                          "jwt_ops->process_eddsa(item->json, item)": ("item", "3"), "process_octet(item->json, item)": ("item", "4")},
+                  rets={"NULL": "9", "item": "0"})
+    emit(sk, "processOne", [("itemNull", "Bool"), ("copyNull", "Bool"), ("ktyNull", "Bool"), ("ktyIsString", "Bool"), ("ktyIsEC", "Bool"), ("ktyIsRSA", "Bool"),
+                            ("ktyIsOKP", "Bool"), ("ktyIsOct", "Bool")],
+         "jwks.c `jwk_process_one`: the result says which importer the item went through before `jwk_process_values` -- 1 `process_ec`, 2 `process_rsa`, "
+         "3 `process_eddsa`, 4 `process_octet`, 0 none (the item is returned flagged), 9 = NULL (allocation); `ktyIsEC` = `jwt_strcmp(kty, \"EC\")` is 0, …")
     out.append("end Jwt.Generated.Pipeline")
     return "\n".join(out) + "\n", info
 
